@@ -103,7 +103,7 @@ def ref_section(R, addr):
 class Synth:
     """a random structurally valid ELF image"""
 
-    def __init__(self, rng, cls=None, order=None, nseg=None, page=0x1000, exotic=False, machine=None):
+    def __init__(self, rng, cls=None, order=None, nseg=None, page=0x1000, exotic=False, machine=None, share=False, code=None, lead=0):
         self.rng = rng
         self.cls = cls or rng.choice([32, 64])
         self.order = order or rng.choice(["<", ">"])
@@ -118,8 +118,16 @@ class Synth:
         for k in range(nseg):
             filesz = rng.choice([0, rng.randrange(1, 64), rng.randrange(1, 700)]) if k else rng.randrange(16, 400)
             memsz = filesz + rng.choice([0, 0, rng.randrange(1, 300)])
-            segs.append({"filesz": filesz, "memsz": memsz, "flags": rng.choice([4, 5, 6, 7]), "data": rng.randbytes(filesz)})
+            if share and k < nseg - 1:
+                memsz = filesz                  # no bss on a page that the next segment shares
+            data = rng.randbytes(filesz)
+            if k == 0 and code:
+                data = (code * (filesz // len(code) + 1))[:filesz]
+            segs.append({"filesz": filesz, "memsz": memsz, "flags": rng.choice([4, 5, 6, 7]) if k else 5, "data": data})
         self.segs = segs
+        self.share = share
+        self.lead = lead
+        self.code = code
         self.exotic = exotic
         self.machine = machine
         self.vbase = vbase
@@ -158,9 +166,10 @@ class Synth:
         chunks.append(("strtab", strtab))
         secnames = {}
         order = list(range(len(chunks)))
-        rng.shuffle(order)
+        if not self.share:
+            rng.shuffle(order)
         # assign file offsets; segment chunks must satisfy offset % page == vaddr % page: choose vaddr afterwards
-        pos = ehsize + rng.choice([0, 0, rng.randrange(0, 24)])
+        pos = ehsize + rng.choice([0, 0, rng.randrange(0, 24)]) + self.lead
         offs = {}
         img = bytearray()
         for k in order:
@@ -175,6 +184,9 @@ class Synth:
         for i, s in enumerate(self.segs):
             o = offs["seg%d" % i]
             v = va + (o % page)
+            if self.share and i > 0:
+                # same offset-address delta as the previous segment: neighbours may share a page
+                v = self.segs[i - 1]["vaddr"] + (o - self.segs[i - 1]["offset"])
             s["offset"], s["vaddr"] = o, v
             phdrs.append(dict(p_type=PT_LOAD, p_offset=o, p_vaddr=v, p_paddr=v, p_filesz=s["filesz"], p_memsz=s["memsz"],
                               p_flags=s["flags"], p_align=page))
@@ -256,7 +268,8 @@ class Synth:
         s0 = self.segs[0]
         mach = self.machine if self.machine is not None else rng.choice([3, 62, 40, 8, 2, 20, 243, 183, 83])
         eh = dict(e_type=rng.choice([2, 3]), e_machine=mach, e_version=1,
-                  e_entry=s0["vaddr"] + rng.randrange(0, max(1, s0["filesz"])), e_phoff=offs["phdr"], e_shoff=offs["shdr"],
+                  e_entry=s0["vaddr"] + (rng.randrange(0, max(1, s0["filesz"])) if not self.code else
+                                          len(self.code) * rng.randrange(0, max(1, (s0["filesz"] - 16) // len(self.code)))), e_phoff=offs["phdr"], e_shoff=offs["shdr"],
                   e_flags=rng.getrandbits(32) if rng.random() < 0.5 else 0, e_ehsize=ehsize, e_phentsize=esz["phdr"], e_phnum=len(phdrs),
                   e_shentsize=esz["shdr"], e_shnum=len(shdrs), e_shstrndx=idx[".shstrtab"])
         ident = bytes([0x7F, 0x45, 0x4C, 0x46, 1 if cls == 32 else 2, 1 if self.order == "<" else 2, 1,
